@@ -226,7 +226,14 @@ def run_check(pid, cfg, tier, seed, jobs, work, t_start):
             violations.append((name, os.path.join(cwd, m.group(1)) if m else lp, "native fuzzing found a failing input"))
         else:
             tail = "\n".join(out.splitlines()[-25:])
-            infra.append(f"{name}: exit status {rc} without a violation marker (harness problem):\n{tail}")
+            keep = os.path.join(ROOT, ".work", "failed-logs")
+            os.makedirs(keep, exist_ok=True)
+            kept = os.path.join(keep, f"{pid}-{name}-{int(time.time())}.log")
+            try:
+                shutil.copy(lp, kept)
+            except OSError:
+                kept = "(log not kept)"
+            infra.append(f"{name}: exit status {rc} after {wall:.0f}s without a violation marker ({len(out)} bytes of output, kept at {kept}) (harness problem):\n{tail}")
 
     ev = merge_evidence(pid, cfg, tier, seed, work, time.time() - t_start, len(violations), known_lines, infra)
     # runs against another dst tree (seeded changes) must not overwrite the evidence of /repo
